@@ -1,5 +1,5 @@
 #!/bin/bash
-# usage: seed_checks.sh <seed-id> [label]
+# usage: seed_checks.sh <seed-id> [label]      (VERIF_DIR=<frozen copy of /verif> to run the rules of another checkout)
 # Applies /verif/seeded/<seed-id>/patch.diff to /repo, runs every registered quick check, restores /repo.
 # Writes /verif/seeded/<seed-id>/checks[-label].log  (one line per property, plus the violation texts).
 set -u
@@ -9,14 +9,14 @@ log=$out/checks${label:+-$label}.log
 cd /repo && git diff --quiet || { echo "/repo dirty"; exit 2; }
 git apply $out/patch.diff || { echo "patch does not apply to /repo"; exit 2; }
 trap 'git -C /repo checkout -- .' EXIT
-cd /verif
+cd ${VERIF_DIR:-/verif}
 : > $log
-for p in $(python3 -c "import json;print(' '.join(c['property_id'] for c in json.load(open('/verif/MANIFEST.json'))['checks']))"); do
+for p in $(python3 -c "import json;print(' '.join(c['property_id'] for c in json.load(open('MANIFEST.json'))['checks']))"); do
   tmp=$(mktemp)
   ./check $p > $tmp 2>&1; rc=$?
   echo "$p rc=$rc $(grep -c '^VIOLATION' $tmp) violation(s)" >> $log
   if [ $rc -ne 0 ]; then grep -B1 "^VIOLATION" $tmp | grep -v "^VIOLATION" | grep -v "^--" | cut -c1-600 >> $log; grep "CHECKER ERROR" $tmp | head -3 >> $log; fi
   rm -f $tmp
 done
-git -C /verif checkout -- evidence 2>/dev/null
+git -C ${VERIF_DIR:-/verif} checkout -- evidence 2>/dev/null
 grep -v "rc=0" $log
